@@ -298,12 +298,13 @@ class C18(Prop):
             out = [float(v) for v in cv.deconvolve(c, psf, mode=mode)]
         except Exception as e:
             return outcome({"raises": type(e).__name__}, {}, {}, spec_ok=False, model_ok=False, features=["deconv:raises"])
-        spec = [fl(v) for v in rep["spec"]]
+        spec = [fl(v) for v in rep["spec"]]                       # the leading n - 2 samples (trimming arithmetic)
         model = [fl(v) for v in (rep["model"] if mode == "valid" else rep["model_same"])]
-        lead = out[: len(spec)]
-        spec_ok = len(lead) == len(spec) and all(abs(a - b) <= tol for a, b in zip(lead, spec))
-        if mode == "valid":
-            spec_ok = spec_ok and len(out) == len(spec)
+        xs = [float(v) for v in xq]
+        # the property fixes what the samples are, not how many: demand at least the n - 2 leading samples of x,
+        # and in 'valid' mode nothing but leading samples of x
+        lead = out if mode == "valid" else out[: len(spec)]
+        spec_ok = len(spec) <= len(lead) <= len(xs) and all(abs(a - b) <= tol for a, b in zip(lead, xs))
         model_ok = len(out) == len(model) and all(abs(a - b) <= tol for a, b in zip(out, model))
         feats = {"deconv", "deconv:" + mode, f"deconv:m={len(pq)}"}
         return outcome({"values": out}, {"values": model}, {"leading": spec}, spec_ok=spec_ok, model_ok=model_ok, features=feats)
